@@ -131,7 +131,7 @@ def run(ctx):
         sa = site('set_acknowledgement')
         ok = len(sa) == 1
         v = peel(tcp.argv(sa[0], 1)) if ok else None
-        ok = ok and is_call(v, r'u32>::wrapping_add$') and req('get_sequence')(v[2][0]) and const_val(v[2][1]) == 1
+        ok = ok and is_modsum(tcp.argv(sa[0], 1), [req('get_sequence')], 1)
         rep.check(r2, ok, 'synack:ack', 'acknowledgement <- %s' % (short(v) if v else None), tcp.loc(sa[0]) if sa else tcp.loc(h))
         ss = site('set_sequence')
         ok = len(ss) == 1
